@@ -16,7 +16,22 @@ use crate::Ctx;
 use llguidance::earley::VerifState;
 use llguidance::Matcher;
 
+/// loop grammars with a long probe that stays inside the loop: many read-only queries in one state accumulate
+/// speculative parser work without any commit in between
+fn heavy_families() -> Vec<(&'static str, &'static str, &'static str)> {
+    // (grammar, first committed text, unit of the probe)
+    vec![
+        ("start: WORD (\",\" WORD)*\nWORD: /[a-z]+/\n", "a", ",a"),
+        ("start: \"[\" item (\",\" item)* \"]\"\nitem: NUM | \"x\"\nNUM: /[0-9]+/\n", "[1", ",x,2"),
+        ("start: (A | B)+\nA: \"ab\"\nB: /c+d/\n", "ab", "cdab"),
+    ]
+}
+
 pub fn gen_case(rng: &mut Rng, idx: usize, thorough: bool) -> Value {
+    if idx % 10 == 9 {
+        let f = (idx / 10) % heavy_families().len();
+        return json!({"heavy": f, "reps": if thorough { 200 } else { 90 }, "unit_reps": if thorough { 300 } else { 200 }, "seed": rng.next() % 1_000_000_000});
+    }
     let (g, texts) = eng::gen_grammar(rng, idx);
     json!({"grammar": g.to_json(), "texts": texts.iter().map(|t| crate::vocab::hex(t)).collect::<Vec<_>>(),
            "vocab_kind": (idx + idx / 3) % 3, "canonical": idx % 4 == 3, "seed": rng.next() % 1_000_000_000, "steps": if thorough { 40 } else { 22 }})
@@ -114,7 +129,52 @@ pub fn world_of(case: &Value, rng: &mut Rng) -> Option<(Gram, World)> {
     Some((g, w))
 }
 
+/// many read-only queries (validate_tokens over a long probe, is_accepting) in one state: every answer must
+/// equal the first one, and afterwards the engine must agree with a fresh one that only replayed the commits
+fn run_heavy(case: &Value, rep: &mut Report) {
+    let fams = heavy_families();
+    let (gs, first, unit) = fams[case["heavy"].as_u64().unwrap_or(0) as usize % fams.len()];
+    let g = Gram::Lark(gs.to_string());
+    let sb = crate::vocab::single_byte_words();
+    let eos = sb.len() as u32 - 1;
+    let Ok(w) = eng::World::new(sb, eos, false, None) else { rep.skip("world"); return; };
+    rep.count(&format!("case.heavy={}", case["heavy"]));
+    let firsts: Vec<u32> = first.bytes().map(|b| b as u32).collect();
+    let probe: Vec<u32> = unit.bytes().map(|b| b as u32).cycle().take(unit.len() * case["unit_reps"].as_u64().unwrap_or(200) as usize).collect();
+    let mut a = w.matcher(&g);
+    if a.is_error() { rep.skip("grammar-rejected"); return; }
+    let _ = a.compute_mask();
+    for &t in &firsts { if a.consume_token(t).is_err() { rep.skip("heavy-first-rejected"); return; } }
+    let mut b = w.matcher(&g);
+    for &t in &firsts { let _ = b.consume_token(t); }
+    let expect = b.validate_tokens(&probe).unwrap_or(0);
+    let reps = case["reps"].as_u64().unwrap_or(90);
+    for i in 0..reps {
+        rep.evaluations += 1;
+        let k = a.validate_tokens(&probe).unwrap_or(usize::MAX);
+        if k != expect {
+            rep.fail("oracle", "c11:repeated-query-changes-answer", format!("validate_tokens of the same {}-token probe in the same state: call #{i} returns {k}, a fresh engine {expect}", probe.len()), case.clone());
+            return;
+        }
+        if i % 16 == 0 { let _ = a.is_accepting(); }
+    }
+    rep.count_n("heavy.validated_tokens", reps * probe.len() as u64);
+    let (oa, ob) = (eng::observe(&mut a), eng::observe(&mut b));
+    if oa != ob {
+        rep.fail("oracle", "c11:queries-leave-trace", format!("after {reps} read-only queries the engine differs from a fresh one: {:?} vs {:?}", eng::obs_json(&oa), eng::obs_json(&ob)), case.clone());
+        return;
+    }
+    // and it still commits what the fresh one commits
+    let tail: Vec<u32> = probe.iter().copied().take(unit.len() * 3).collect();
+    for &t in &tail {
+        let (ra, rb) = (a.consume_token(t).is_ok(), b.consume_token(t).is_ok());
+        if ra != rb { rep.fail("oracle", "c11:queries-leave-trace", format!("after the queries token {t} is committed by one engine only ({ra} / {rb})"), case.clone()); return; }
+    }
+    rep.nontrivial(format!("heavy|{gs}"));
+}
+
 pub fn run_case(_ctx: &Ctx, case: &Value, tag: usize, rep: &mut Report, mb: &mut ModelBatch) {
+    if case.get("heavy").is_some() { run_heavy(case, rep); return; }
     let mut rng = Rng::new(case["seed"].as_u64().unwrap());
     let Some((g, w)) = world_of(case, &mut rng) else { rep.skip("world"); return; };
     let canonical = case["canonical"].as_bool().unwrap_or(false);
